@@ -292,3 +292,31 @@ def refusal_reasons(fn, is_refusal):
             prev = a
         out.append((i, None if guard is None else [norm(canon(fn, c)) for c in disj(guard)]))
     return out
+
+
+def always_scans(fn, container_member):
+    """Every path from the entry of fn to a normal exit passes the start of a loop over `container_member` (its begin() call, or
+    the range expression of a range-for): returns (loop statements found, witness path or None)."""
+    from sa.paths import Cfg, loops
+    lps = []
+    starts = set()
+    for l in loops(fn):
+        nd = fn.nodes[l]
+        if nd['k'] == 'CXXForRangeStmt':
+            if any(fn.nodes[j]['k'] == 'MemberExpr' and fn.nodes[j].get('m') == container_member for j in fn.walk(nd['range'])):
+                lps.append(l)
+                starts |= {j for j in fn.walk(nd['range'])}
+        else:
+            ini = nd.get('init')
+            if ini is not None and ini >= 0:
+                bs = [j for j in fn.walk(ini) if (fn.nodes[j].get('callee') or '').endswith('::begin') and
+                      any(fn.nodes[x]['k'] == 'MemberExpr' and fn.nodes[x].get('m') == container_member for x in fn.walk(j))]
+                if bs:
+                    lps.append(l)
+                    starts |= set(bs)
+                    starts |= {j for j in fn.walk(ini)}
+    if not lps:
+        return [], ['no loop over %s' % container_member]
+    cfg = Cfg.of(fn)
+    wit = cfg.must_pass_from((cfg.entry, -1), lambda e: e in starts)
+    return lps, wit
